@@ -135,7 +135,16 @@ func (ex *Exec) loopArrive(fr *Frame, from, head *ssa.BasicBlock, li *loopInfo) 
 		}
 		return false
 	}
-	env := func() *Env { return ex.envFor(fr, nil) }
+	entering := !(back && fr.cut[head.Index])
+	if entering {
+		delete(fr.loopOld, head.Index)
+	}
+	env := func() *Env {
+		e := ex.envFor(fr, nil)
+		e.loopOld = fr.loopOld[head.Index] // nil while the entry obligations are evaluated: loopentry(e) is e itself there
+		e.inLoop = true
+		return e
+	}
 	if back && fr.cut[head.Index] {
 		// inductive step
 		if spec != nil {
